@@ -1,12 +1,6 @@
-mod corpus;
-mod engine;
-mod props;
-mod sexpr;
-mod sim;
-#[allow(dead_code)]
-mod model;
-#[allow(dead_code)]
-mod gen;
+use vcheck::{engine, gen, props};
+#[allow(unused_imports)]
+use vcheck::{corpus, model, sexpr, sim};
 
 use engine::driver::{run_check, RunOpts};
 use engine::worker::{run_worker, WorkerArgs};
@@ -32,6 +26,40 @@ fn main() {
         usage();
     }
     let cmd = args[0].as_str();
+    if cmd == "dump-corpus" {
+        // seed corpus and dictionary for the libFuzzer target of C03
+        let dir = std::path::PathBuf::from(args.get(1).cloned().unwrap_or_else(|| usage()));
+        std::fs::create_dir_all(&dir).expect("corpus dir");
+        let c = corpus::corpus();
+        let mut n = 0;
+        for (i, e) in c.entries.iter().enumerate() {
+            // whole small texts, and the single top-level forms of the larger ones
+            if e.text.len() <= 4096 {
+                std::fs::write(dir.join(format!("entry{i}")), &e.text).expect("write");
+                n += 1;
+            }
+            if let Some(forms) = &e.forms {
+                for (j, f) in forms.iter().enumerate().take(40) {
+                    let t = f.to_text();
+                    if t.len() <= 1024 {
+                        std::fs::write(dir.join(format!("entry{i}form{j}")), t).expect("write");
+                        n += 1;
+                    }
+                }
+            }
+        }
+        if let Some(dict) = args.get(2) {
+            let mut out = String::new();
+            for a in c.list_actions.iter().chain(c.atoms.iter()) {
+                if a.len() <= 40 && a.chars().all(|ch| ch.is_ascii_graphic() && ch != '"' && ch != '\\') {
+                    out.push_str(&format!("\"{a}\"\n"));
+                }
+            }
+            std::fs::write(dict, out).expect("dict");
+        }
+        println!("{n} corpus files");
+        return;
+    }
     if cmd == "dbg-gencfg" {
         // developer aid: acceptance rate of the grammar generator
         use proptest::prelude::*;
